@@ -335,6 +335,17 @@ func (r *Rng) gjString() string {
 	case 2:
 		return fmt.Sprintf("%g", r.wktOrd())
 	case 3:
+		if r.chance(1, 2) {
+			// text that looks like JSON's own escapes (a literal backslash and what follows it), HTML
+			// characters, line separators, quotes
+			bs := "\\"
+			parts := []string{bs + "u0026", bs + "u003c", bs + "u003e", bs + "u2028", bs + "n", bs + `"`, bs + bs, bs, "<", ">", "&", string(rune(0x2028)), string(rune(0x2029)), `"`, "C:", "data", string(rune(0x7f)), string(rune(0xe9)), "/", bs + "u00", bs + "ud83d"}
+			out := ""
+			for k := 1 + r.Intn(4); k > 0; k-- {
+				out += parts[r.Intn(len(parts))]
+			}
+			return out
+		}
 		return "a\"b\\c/d\n\t <>&é\U0001F600"
 	case 4:
 		return "null"
